@@ -330,6 +330,24 @@ fn shape_cases(rng: &mut Rng, cases: &mut Vec<Case>) {
     ] {
         cases.push(Case::new(make_req(f, p, &data, lim, false), "shape nt"));
     }
+    // an integer /Predictor in the DecodeParms of a filter that has no predictor (finding F4):
+    // PNG-encoded rows behind ASCIIHex / ASCII85 / RunLength
+    for f in ["Hex", "A85", "Rl"] {
+        for _ in 0..6 {
+            let cols = 1 + rng.below(6) as usize;
+            let rows = 1 + rng.below(4) as usize;
+            let plain = rng.bytes(cols * rows);
+            let t = rng.below(5) as u8;
+            let body = enc::png_encode(&plain, cols, 1, &[t]);
+            let e = match f {
+                "Hex" => enc::hex_encode(&body, true),
+                "A85" => enc::a85_encode(&body),
+                _ => enc::rl_encode(&body, 2, 128),
+            };
+            let l = limits_for(rng, &[plain.len(), body.len()]);
+            cases.push(Case::new(make_req(&format!("n:{}", f), &format!("d:P{};C{}", 10 + t, cols), &e, &l, false), "shape pred-on-other nt"));
+        }
+    }
     // a filter-less stream and an empty filter array are well-formed streams
     for n in [0usize, 1, 17] {
         let d = rng.bytes(n);
